@@ -70,11 +70,67 @@ def pick_cfgs(env: str, tier: str) -> List[Dict[str, Any]]:
     return (ranked[:3] if ranked else []) + cfgs[:1]
 
 
+# the wrapped object need not be a bare environment: a user-defined Wrapper that rewrites observations in reset and step, and
+# the library's MultiToSingleWrapper, sit between the auto-reset wrapper and the environment in these shards
+INNER = {
+    "quick": [("Snake", "r3c5L7", "tag"), ("Knapsack", "n10b2sparse", "tag"), ("Maze", "r5c9L7", "tag"),
+              ("Connector", "u5a4L7", "m2s"), ("LevelBasedForaging", "g6a3f2v2gridL7", "m2s_tag")],
+    "thorough": [("Snake", "r3c5L7", "tag"), ("Knapsack", "n10b2sparse", "tag"), ("Maze", "r5c9L7", "tag"), ("Tetris", "r6c5L3", "tag"),
+                 ("Cleaner", "r5c11a2L7", "tag"), ("Minesweeper", "r3c7m5", "tag"), ("TSP", "n5sparse", "tag"), ("Game2048", "b2", "tag"),
+                 ("Connector", "u5a4L7", "m2s"), ("LevelBasedForaging", "g6a3f2v2gridL7", "m2s_tag"), ("Connector", "u4a3L2", "m2s_tag")],
+}
+
+
+MIXED_ENDINGS = {
+    "quick": [("Tetris", "r5c8L12"), ("Tetris", "r6c5L7"), ("Snake", "r3c4L60"), ("Cleaner", "r4c7a1"), ("Minesweeper", "r3c7m5")],
+    "thorough": [("Tetris", "r5c8L12"), ("Tetris", "r6c5L7"), ("Tetris", "default"), ("Snake", "r3c4L60"), ("Snake", "default"), ("Cleaner", "r4c7a1"),
+                 ("Minesweeper", "r3c7m5"), ("Sudoku", "veryeasy"), ("GraphColoring", "n6p5"), ("JobShop", "j5m3o4d3"), ("BinPack", "r10e12o5"),
+                 ("TSP", "n5"), ("CVRP", "n10c3d3"), ("Knapsack", "n10b2")],
+}
+
+
+def wrap_inner(env, kind):
+    """kind: None | "tag" (user wrapper rewriting every observation leaf in reset and step) | "m2s" | "m2s_tag"."""
+    if not kind:
+        return env
+    import jax
+    import jax.numpy as jnp
+    from jumanji.wrappers import MultiToSingleWrapper, Wrapper
+
+    class TagObservation(Wrapper):
+        """Same structure, shapes and dtypes; every numeric leaf + 1, every boolean leaf negated."""
+
+        @staticmethod
+        def _tag(ts):
+            f = lambda x: (~x if jnp.asarray(x).dtype == jnp.bool_ else jnp.asarray(x) + jnp.asarray(1, jnp.asarray(x).dtype))
+            return ts.replace(observation=jax.tree_util.tree_map(f, ts.observation))
+
+        def reset(self, key):
+            state, ts = self._env.reset(key)
+            return state, self._tag(ts)
+
+        def step(self, state, action):
+            state, ts = self._env.step(state, action)
+            return state, self._tag(ts)
+
+    if kind.startswith("m2s"):
+        env = MultiToSingleWrapper(env)
+    if kind.endswith("tag"):
+        env = TagObservation(env)
+    return env
+
+
 def shards(tier: str, seed: int) -> List[Dict[str, Any]]:
     out = []
     for e in E.ENVS:
         for c in pick_cfgs(e, tier):
             out.append({"id": f"{e}|{c['id']}", "env": e, "cfg": c, "weight": HEAVY.get(e, 1.0)})
+    # runs in which episodes end for different reasons (invalid move, completion, time limit) inside one run: the small
+    # time limits chosen above end nearly every episode at the limit
+    for e, cid in MIXED_ENDINGS[tier]:
+        out.append({"id": f"{e}|{cid}|mixed", "env": e, "cfg": E.cfg_by_id(e, cid), "steps": 150 if tier == "quick" else 500, "weight": HEAVY.get(e, 1.0)})
+    for e, cid, kind in INNER[tier]:
+        out.append({"id": f"{e}|{cid}|inner-{kind}", "env": e, "cfg": E.cfg_by_id(e, cid), "inner": kind, "weight": HEAVY.get(e, 1.0)})
     return out
 
 
@@ -93,13 +149,15 @@ def run_shard(shard: Dict[str, Any], rep: Report) -> None:
     name, cfg = shard["env"], shard["cfg"]
     cid = cfg["id"]
     rng = shard_rng(seed, sid)
-    env = E.build(name, cfg)
+    env = wrap_inner(E.build(name, cfg), shard.get("inner"))
+    if shard.get("inner"):
+        rep.count("inner_wrapper_shards")
     spec = env.action_spec
     n_reset = jax.jit(env.reset)
     n_step = jax.jit(env.step)
     tol = dict(exact=False, rtol=1e-5, atol=1e-6)
     random_cfg = is_random_cfg(name, cfg)
-    n_steps = 40 if tier == "quick" else 200
+    n_steps = shard.get("steps") or (40 if tier == "quick" else 200)
 
     def viol(clause, detail, replay=None, qualifier=""):
         rep.violation(name, cid, clause, detail, replay=replay or {"env": name, "cfg": cfg}, qualifier=qualifier)
